@@ -30,6 +30,8 @@ def run(tier):
         chk.clause('C03.options', 'option-controlled choices of ?gstrf / ?gsitrf (relaxation routine, use of remembered pivots)')
         for _p in _drv.PRECS:
             misc.option_choice_rules(chk, 'C03.options', prog, _p, cfgname)
+        chk.clause('C03.fixup', 'fixupL relabels the row subscripts of L for every matrix that has a column')
+        misc.fixup_unconditional_rule(chk, 'C03.fixup', prog, cfgname)
         chk.clause('C03.droprow', 'ilu_?drop_row moves values and subscripts of a row together')
         for p in _drv.PRECS:
             misc.drop_row_alignment(chk, 'C03.droprow', prog, p, cfgname)
